@@ -319,7 +319,6 @@ func cmdC11(args []string) error {
 	return nil
 }
 
-
 // ---- the locks of the client as the hooks in client/session.go, cache.go and network.go report them ------------------------
 // The observer keeps, per goroutine, the locks it has requested and not yet released, and records every NESTING it sees: a lock
 // requested while another is held (classes, modes, whether it is the very same lock), and every exchange with a KDC begun while
